@@ -8,8 +8,11 @@ RULE = ("each case = one real System built by the real SystemBuilder (build + in
         "client order ids from a pool of 4), call cancel, call close <filter>, call cancel_orders <filter>, call trading on|off, take_audit}, half of "
         "the segments closed by `settle` (await quiescence by tokio yields only), 30 % by `sleep 10|50|100|250` (tokio::time::advance, then settle), "
         "20 % not at all; in 16 % of the cases a request for the exchange without execution link (the engine stops on the unrecoverable error) directly "
-        "followed by `settle`, after which further calls, shutdown/abort (they panic) or `join` follow; the case ends with shutdown (55 %) or abort, "
-        "10 % add a call after the handle was consumed. Thorough additionally enumerates every op sequence of length <= 3 over 8 symbols (market trade "
+        "followed by `settle`, after which further calls, shutdown/abort (they panic) or `join` follow; in 12 % of the cases with a second exchange the LAST request of the case "
+        "(after `sleep 250`, directly followed by `settle`) is an open / cancel request sent to the mocked exchange for the instrument of the OTHER exchange: the ExecutionManager "
+        "task panics, shutdown() then returns the JoinError (`res joinerr 1`), abort() the engine; the case ends with shutdown (55 %) or abort, "
+        "10 % add a call after the handle was consumed. Ops outside the input guard PosOps (an open request or a market item with a price or quantity <= 0) are answered `bad-op` by "
+        "harness and drivers alike (corpus/C20S/review_b.ops). Thorough additionally enumerates every op sequence of length <= 3 over 8 symbols (market trade "
         "with reaction, trading on, trading off, open, close, cancel_orders, settle, sleep 50) for {iter,stream} x {audit on,off} at latency 50 ms "
         "(2 340 cases). A case is distinct by the SHA-1 of its op lines and non-trivial when the implementation's observation blocks differ")
 ASSUMPTIONS = [
@@ -30,8 +33,22 @@ ASSUMPTIONS = [
     "EngineFeedMode::Iterator runs the engine on a real blocking thread (spawn_blocking) that spins on try_recv: WHEN that thread runs relative to "
     "the runtime thread is not controlled; the harness synchronises with it only through the processed-event count",
     "a request for an exchange without execution link is always directly followed by `settle` (otherwise whether the next handle call panics is a thread race in Iterator mode)",
-    "requests address the exchange their instrument lives on, or the exchange without execution link (a request routed to the mock exchange for an "
-    "instrument it does not list makes the ExecutionManager task panic; not exercised); strategy reactions are only requested for instruments of the mocked exchange",
+    "requests address the exchange their instrument lives on, or the exchange without execution link, or - only as the LAST request of a case, after everything requested before has "
+    "been answered (`sleep 250`), directly followed by `settle` - the mocked exchange for the instrument of the other exchange: that makes the ExecutionManager task panic "
+    "(manager.rs:244-268; modelled: CExch.dead, the dead side answers nothing, shutdown() yields the JoinError, abort() does not - exec_task_dies_iff, dead_execution_side_is_silent, "
+    "shutdown_fails_where_abort_succeeds). NOT modelled: what the ENGINE does with a later request for the exchange whose task has died (observed: its link is closed, the request ends in "
+    "an unrecoverable ExecutionChannelTerminated and the engine stops) and what a panicking manager task does to requests still in flight (tokio::select! order); neither is generated. "
+    "Strategy reactions are only requested for instruments of the mocked exchange",
+    "input guard PosOps: every open request sent through the handle and every market item carries a positive price, every requested quantity (open requests, strategy reactions) is positive; "
+    "inputs outside it are rejected as `bad-op` by harness and drivers. Under the guard every fill the engine ever processes is positive for EVERY schedule (posOps_events_ok, which also covers "
+    "the strategy's and close_positions' own requests), which is the hypothesis of account_order_irrelevant / reachable_state_ok. Outside it the real engine PANICS (0/0 in "
+    "approximate_remaining_exit_fees, position.rs:517-523, at the next fill or price update of a position opened by a zero-quantity fill; 0/(0*q) in calculate_pnl_return, position.rs:549-555, "
+    "when a position entered at price 0 exits) where the model continues (zero_quantity_fill_witness; re-run audit/sub/scratch_B/C20S_z1.ops, C20S_z2.ops); the panic condition itself is stated "
+    "on the full position record in sub-check C20E (tick_panics / posOps_no_panic)",
+    "Engine::shutdown() (the engine runner sends ExecutionRequest::Shutdown to every execution manager when it stops - what lets SystemAuxillaryHandles::shutdown() return) is not modelled: "
+    "the model's outcome of shutdown() is available as soon as the engine task has returned",
+    "number range: the models use exact rationals; Decimal overflow (e.g. 1e15 x 1e15 against a 7e28 balance kills the mock exchange task: `res joinerr 1` where the model closes normally), "
+    "k = 0 instruments and market items / requests naming an instrument index beyond the configured ones (the harness's label lookup panics) are outside the generator and outside the model",
     "strategy decisions depend on recorded market trades only; DefaultRiskManager (approves everything); mock exchange with zero fees",
     "FeedEnded is not reachable while the System value lives (handle and forwarders hold feed senders); it is modelled only in the four runner functions",
     "position arithmetic beyond (side, net quantity) is C02's; balances inside the engine state are not compared (C09's)",
@@ -53,20 +70,28 @@ TECHNIQUE = ("Lean 4: the running system as a scheduler-driven transition system
              "modelled one by one and proved equal; link of the audit stream to the C10 replica theorem; correspondence with the real System under a paused tokio clock")
 LEVEL_TEXT = ("Proof (sub-check of C20). Lean theorems (lean/BarterModel/Props/C20S.lean) over a model of the running System as a scheduler-driven transition "
               "system (handle calls, market forwarder, account forwarder, engine runner, one FIFO feed; engine and execution side abstract), for EVERY action list: "
-              "builder_defaults / builder_setters / builder_last_call_wins / init_audit; the four runners of engine/run.rs modelled one by one: feed_modes_agree "
-              "(Iterator and Stream runner return the same output on every feed), audit_mode_only_adds_ticks, runner_closed_form, stopped_state_is_runner_output "
+              "the four runners of engine/run.rs modelled one by one: audit_mode_only_adds_ticks, runner_closed_form, stopped_state_is_runner_output "
               "(a stopped system is in exactly the state the selected runner function returns on the channel content); commands_once_in_order, applied_in_send_order, "
-              "earlier_calls_applied_before, command_sees_trading_state (every handle event reaches Engine::process at most once, in call order; a trading_state() call made "
-              "before a command is applied before it); engine_is_fold, result_is_fold, result_on_shutdown, nothing_after_stop, refines_spec (shutdown()/abort() return the "
+              "earlier_calls_applied_before + earlier_calls_applied_before_pos (positional), command_sees_trading_state (every handle event reaches Engine::process at most once, in call order; a trading_state() call made "
+              "before a command is applied before it); engine_is_fold, result_is_fold, result_on_shutdown, nothing_after_stop, refines_spec (the engine task of shutdown()/abort() returns the "
               "built engine fed exactly the processed history: all handle events sent, in order, Shutdown last; nothing behind it is ever processed); "
-              "drain_only_engine / no_forward_handle_only / final_segment_no_stream_events (between the user's last await and the return of shutdown()/abort() the engine "
-              "processes handle events only - the spec states `m` and `a` EMPTY in the final block, all three projections empty after a fatal stop, and `seq_off` = "
-              "sequence number minus processed events = 1 with the audit snapshot, else 0); abort_eq_shutdown "
-              "(abort differs from shutdown in nothing the engine or the feed can see); audit_enabled_stream / audit_disabled_nothing / take_audit_once; "
-              "audit_replica_reproduces_engine (snapshot + ticks through the C10 replica reproduce the engine, the C10 hypotheses discharged for this system); "
-              "call_after_stop_panics / close_after_stop_panics / join_after_stop; streams_in_order, quiescent_everything_processed, requests_reach_exchange_in_order; "
-              "trading_is_last_update; account_order_irrelevant + reachable_state_ok (the account events of one segment commute on the whole engine state). "
+              "after_close_any_schedule / final_segment_any_schedule (from a feed holding only handle events, the close call followed by ANY schedule - forwarders included - lets the engine "
+              "process handle events only: whatever the forwarders enqueue stands behind the Shutdown; the spec states `m` and `a` EMPTY in the final block, all three projections empty after a fatal stop, and `seq_off` = "
+              "sequence number minus processed events = 1 with the audit snapshot, else 0; drain_only_engine / no_forward_handle_only / final_segment_no_stream_events are the weaker forms kept); "
+              "abort vs shutdown for the CALLER: outcome_abort_eq_shutdown (same value WHILE NO EXECUTION TASK HAS DIED), shutdown_fails_where_abort_succeeds + exec_death_witness (after the death of an "
+              "execution task shutdown() returns its JoinError, abort() the engine), exec_task_dies_iff (the mocked ExecutionManager dies exactly on a request for an instrument its exchange does not list), "
+              "dead_execution_side_is_silent; audit_enabled_stream / audit_disabled_nothing / take_audit_once; "
+              "audit_replica_reproduces_engine (snapshot + the ticks RECOMPUTED from the processed history through the C10 replica reproduce the engine, the C10 hypotheses discharged for this system; sequence numbers and terminal flags of the recomputed ticks are those of the ticks sent); "
+              "close_after_stop_panics / join_after_stop; streams_in_order, quiescent_everything_processed; "
+              "trading_is_last_update; account_order_irrelevant + reachable_state_ok (the account events of one segment commute on the whole engine state) with the hypothesis derived from the inputs: "
+              "posOps_events_ok / reachable_state_ok_of_posOps (guard PosOps: positive prices and quantities in every request and market item => every request the engine sends, its own included, and every fill it processes is positive), "
+              "zero_quantity_fill_witness (what the guard excludes). "
+              "Definitional / bookkeeping, true by construction of the model and NOT results: builder_defaults / builder_setters / builder_last_call_wins / init_audit (rfl), feed_modes_agree (the model's "
+              "Iterator and Stream runners are the same recursion written twice - what ties the two REAL runners is the correspondence run, which drives feed modes iter, stream and the unset default), "
+              "requests_reach_exchange_in_order (two ghost fields written by the same step), call_after_stop_panics (simp on send), abort_eq_shutdown (stepClose never reads which of the two was called; it is about the engine task's join value, not the caller's). "
               "The model is tied to the code by driving the real System (SystemBuilder::build + init, mock exchange, both feed modes, both audit modes) under a paused tokio clock on every run.")
 LEVEL_NOTE = ("Trusted: Lean kernel; axioms propext/Classical.choice/Quot.sound only; the hand-written model; harness (recording clock, counting relay on the account channel, "
               "synchronous replay of the recorded feed through a fresh real Engine for `own`, real StateReplicaManager for `replica_eq`), driver, orchestrator. Not exhibited by the model: "
-              "when the blocking engine thread of the Iterator feed mode runs (its try_recv spin), OS timing, wall-clock time, tokio's task order inside one await of the harness.")
+              "when the blocking engine thread of the Iterator feed mode runs (its try_recv spin), OS timing, wall-clock time, tokio's task order inside one await of the harness. "
+              "Spec driver = function of the op lines only (independent keys: built, audit_present, h, m per settle, audit some|none, the final block's h / m / a, shutdown_audit, seq_off, disabled_calls, trading, own 1, "
+              "and `res joinerr 1` for shutdown() after a request that kills the mocked ExecutionManager); impl-vs-model only: `a` per settle, alive, ord / pos / price, seq, processed, disconnects, replica_seq, panic lines after a fatal stop.")
